@@ -150,9 +150,17 @@ def make_space(rng, kind):
 
 
 # ------------------------------------------------------------------ random data
+_FLOATS = [False]     # probes draw generic reals (3 decimals) instead of dyadic rationals
+
+
 def dy(rng, lo=-3, hi=3, nz=False):
-    """small dyadic rational"""
+    """small dyadic rational (correspondence) / generic 3-decimal real (probes)"""
     while True:
+        if _FLOATS[0]:
+            v = round(rng.uniform(lo, hi), 3)
+            if abs(v) < 0.05:
+                continue
+            return v
         v = rng.randint(lo * 4, hi * 4) / 4.0
         if not nz or v != 0:
             return v
@@ -429,5 +437,349 @@ def _add(cs, rng, S, node, vs):
         cs.add(*r)
 
 
+
+# ------------------------------------------------------------------ probes
+# Each probe evaluates the PROPERTY on the implementation (no model involved).
+# run_probe(name, seed) is deterministic in (name, seed); the replay snippet
+# calls it again.
+
+def _fd_ok(f, x, d, gi, tol=2e-6):
+    """central differences at several steps; a true gradient matches one of them to ~h^2"""
+    best = None
+    for h in (1e-3, 1e-4, 1e-5, 1e-6):
+        num = (f(x + h * d) - f(x - h * d)) / (2 * h)
+        err = abs(num - gi) / (1.0 + abs(gi))
+        best = err if best is None else min(best, err)
+    return best <= tol, best
+
+
+def _grad_check(f, S, x, d):
+    """(ok, detail) for: inner(grad f(x), d) == directional derivative == derivative(x)(d)"""
+    xe, de = S.elem(x), S.elem(d)
+    g = f.gradient(xe)
+    gi = float(g.inner(de))
+    dv = float(f.derivative(xe)(de))
+    ok1, err = _fd_ok(f, xe, de, gi)
+    ok2 = abs(dv - gi) <= 1e-10 * (1 + abs(gi))
+    return (ok1 and ok2), {'inner(grad,d)': gi, 'derivative(x)(d)': dv, 'fd_rel_err': err}
+
+
+def _lip_check(f, S, rng, npairs=12):
+    L = float(f.grad_lipschitz)
+    if not math.isfinite(L):
+        return True, {'L': repr(L)}
+    worst = 0.0
+    for i in range(npairs):
+        scale = [1.0, 1.0, 0.05, 10.0][i % 4]
+        y = S.elem([scale * t for t in vec(rng, S)])
+        z = y + S.elem([0.01 * t for t in vec(rng, S)]) if i % 3 == 2 else S.elem([scale * t for t in vec(rng, S)])
+        den = float((y - z).norm())
+        if den == 0:
+            continue
+        worst = max(worst, float((f.gradient(y) - f.gradient(z)).norm()) / den)
+    return worst <= L * (1 + 1e-9) + 1e-12, {'L': L, 'worst_ratio': worst}
+
+
+def _pos_vec(rng, S, lo=0.3, hi=3.0):
+    return [round(rng.uniform(lo, hi), 3) for _ in range(S.n)]
+
+
+def _away(rng, S, kinks, margin=0.05):
+    """a point whose entries keep a margin from the given absolute values"""
+    out = []
+    for _ in range(S.n):
+        while True:
+            v = round(rng.uniform(-3, 3), 3)
+            if all(abs(abs(v) - k) > margin for k in kinks):
+                out.append(v)
+                break
+    return out
+
+
+def _class_cases(rng, S):
+    """(label, key-suffix, functional, point) for every built-in class with a gradient on S"""
+    import odl
+    F = odl.solvers
+    sp = S.sp
+    out = []
+    out.append(('L2NormSquared', F.L2NormSquared(sp), vec(rng, S)))
+    out.append(('L2Norm', F.L2Norm(sp), vec(rng, S)))
+    out.append(('L1Norm', F.L1Norm(sp), _away(rng, S, [0.0])))
+    out.append(('ConstantFunctional', F.ConstantFunctional(sp, dy(rng)), vec(rng, S)))
+    out.append(('ZeroFunctional', F.ZeroFunctional(sp), vec(rng, S)))
+    g = rng.choice([0.5, 1.0, 2.0])
+    if S.is_pspace and not sp.is_power_space:
+        pass        # Huber needs a power space (PointwiseNorm) -- documented restriction
+    else:
+        out.append(('Huber', F.Huber(sp, g), _away(rng, S, [g]) if not S.is_pspace else vec(rng, S)))
+    out.append(('QuadraticForm-vector', F.QuadraticForm(vector=S.elem(vec(rng, S)), constant=dy(rng)), vec(rng, S)))
+    out.append(('QuadraticForm-scaling', F.QuadraticForm(operator=odl.ScalingOperator(sp, dy(rng)),
+                                                         vector=S.elem(vec(rng, S))), vec(rng, S)))
+    out.append(('QuadraticForm-multiply', F.QuadraticForm(operator=odl.MultiplyOperator(S.elem(vec(rng, S))),
+                                                          constant=dy(rng)), vec(rng, S)))
+    if not S.is_pspace or sp.is_power_space:
+        pr = S.elem(_pos_vec(rng, S))
+        out.append(('KullbackLeibler', F.KullbackLeibler(sp), _pos_vec(rng, S)))
+        out.append(('KullbackLeibler-prior', F.KullbackLeibler(sp, pr), _pos_vec(rng, S)))
+        out.append(('KullbackLeiblerConvexConj', F.KullbackLeibler(sp).convex_conj,
+                    [round(rng.uniform(-2, 0.7), 3) for _ in range(S.n)]))
+        out.append(('KullbackLeiblerConvexConj-prior', F.KullbackLeibler(sp, pr).convex_conj,
+                    [round(rng.uniform(-2, 0.7), 3) for _ in range(S.n)]))
+        out.append(('KullbackLeiblerCrossEntropy', F.KullbackLeiblerCrossEntropy(sp), _pos_vec(rng, S)))
+        out.append(('KullbackLeiblerCrossEntropy-prior', F.KullbackLeiblerCrossEntropy(sp, pr), _pos_vec(rng, S)))
+        out.append(('KullbackLeiblerCrossEntropyConvexConj', F.KullbackLeiblerCrossEntropy(sp).convex_conj,
+                    [round(rng.uniform(-1.5, 1.5), 3) for _ in range(S.n)]))
+        out.append(('KullbackLeiblerCrossEntropyConvexConj-prior',
+                    F.KullbackLeiblerCrossEntropy(sp, pr).convex_conj,
+                    [round(rng.uniform(-1.5, 1.5), 3) for _ in range(S.n)]))
+    if S.is_pspace and sp.is_power_space:
+        for ex in (None, 1, 2, 3):
+            out.append(('GroupL1Norm-%s' % ex, F.GroupL1Norm(sp, ex), _away(rng, S, [0.0])))
+    return out
+
+
+def _has_affine_flagged_linear(f):
+    """does f contain a FunctionalQuadraticPerturb flagged linear although its constant is non-zero?"""
+    import odl
+    F = odl.solvers
+    if isinstance(f, F.FunctionalQuadraticPerturb) and f.is_linear and f.constant != 0:
+        return True
+    for attr in ('functional', 'left', 'right', 'operator'):
+        g = getattr(f, attr, None)
+        if isinstance(g, F.Functional) and g is not f and _has_affine_flagged_linear(g):
+            return True
+    return False
+
+
+def _moreau_value(f, sigma, x):
+    p = f.proximal(sigma)(x)
+    return float(f(p) + (x - p).inner(x - p) / (2 * sigma))
+
+
+def run_probe(name, seed):
+    """Deterministic evaluation of one probe; returns (ok, key, what, detail)."""
+    import random
+    import odl
+    F = odl.solvers
+    rng = random.Random('%s-%s' % (name, seed))
+    _FLOATS[0] = True
+    try:
+        return _run_probe(name, rng, odl, F)
+    finally:
+        _FLOATS[0] = False
+
+
+def _run_probe(name, rng, odl, F):
+    kind, _, arg = name.partition(':')
+    if kind == 'class':
+        # arg = "<space kind>/<index in _class_cases>"
+        sk, idx = arg.split('/')
+        S = make_space(rng, sk)
+        if S.array_weighted and False:
+            pass
+        cases = _class_cases(rng, S)
+        label, f, x = cases[int(idx) % len(cases)]
+        d = vec(rng, S)
+        key = 'grad-%s-%s' % (label, sk)
+        what = '%s on %s: inner(gradient(x), d) vs directional derivative vs derivative(x)(d)' % (label, sk)
+        if label == 'Huber' and S.array_weighted:
+            key = 'huber-array-weighting-raises'
+        try:
+            ok, det = _grad_check(f, S, x, d)
+            if ok:
+                ok, det2 = _lip_check(f, S, rng)
+                det.update(det2)
+        except Exception as e:
+            ok, det = False, {'raised': '%s: %s' % (type(e).__name__, str(e)[:200])}
+        det.update({'x': x, 'd': d, 'space': repr(S.sp)})
+        return ok, key, what, det
+    if kind == 'tree':
+        sk, depth = arg.split('/')
+        S = make_space(rng, sk)
+        node = gen_tree(rng, S, int(depth), vs_term(measure_variants()))
+        x, d = vec(rng, S), vec(rng, S)
+        top = node.desc[0]
+        try:
+            ok, det = _grad_check(node.py, S, x, d)
+            key = 'tree-grad-%s' % top
+            if ok:
+                ok, det2 = _lip_check(node.py, S, rng)
+                det.update(det2)
+                if not ok:
+                    key = 'tree-lipschitz-%s' % top
+        except Exception as e:
+            ok, key, det = False, 'tree-raises-%s' % top, {'raised': '%s: %s' % (type(e).__name__, str(e)[:200])}
+        det.update({'tree': node.desc, 'x': x, 'd': d, 'space': repr(S.sp)})
+        return ok, key, 'random tree (top %s) on %s: gradient vs directional derivative; Lipschitz ratio' % (top, sk), det
+    if kind == 'doc':
+        # documented values of the derived functionals
+        sk = arg
+        S = make_space(rng, sk)
+        f = gen_tree(rng, S, 1, vs_term(measure_variants())).py
+        g = gen_pos(rng, S).py
+        x = S.elem(vec(rng, S))
+        t, v, u, p, sg = (S.elem(vec(rng, S)) for _ in range(5))
+        s, a, c = dy(rng), dy(rng), dy(rng)
+        A = gen_op(rng, S, 1)
+        fA = gen_tree(rng, A.S2, 1, vs_term(measure_variants())).py
+        checks = {
+            'scalar-left': ((s * f)(x), s * f(x)),
+            'argument-scaling': ((f * s)(x), f(s * x)),
+            'argument-scaling-zero': ((f * 0)(x), f(0 * x)),
+            'vector-scaling': ((f * v)(x), f(v * x)),
+            'sum': ((f + g)(x), f(x) + g(x)),
+            'scalar-sum': ((f + c)(x), f(x) + c),
+            'difference': ((f - g)(x), f(x) - g(x)),
+            'translation': (f.translated(t)(x), f(x - t)),
+            'translation-nested': (f.translated(t).translated(v)(x), f(x - t - v)),
+            'composition': ((fA * A.py)(x), fA(A.py(x))),
+            'product': (F.FunctionalProduct(f, g)(x), f(x) * g(x)),
+            'quotient': (F.FunctionalQuotient(f, g)(x), f(x) / g(x)),
+            'quadratic-perturbation': (F.FunctionalQuadraticPerturb(f, a, u, c)(x),
+                                       f(x) + a * x.inner(x) + x.inner(u) + c),
+            'bregman': (f.bregman(p, sg)(x), f(x) - f(p) - sg.inner(x - p)),
+        }
+        bad = {k: (float(o), float(e)) for k, (o, e) in checks.items()
+               if not abs(float(o) - float(e)) <= 1e-9 * (1 + abs(float(e)))}
+        key = 'documented-value-%s' % (sorted(bad)[0] if bad else 'all')
+        if sorted(bad) == ['argument-scaling'] and _has_affine_flagged_linear(f):
+            key = 'quadraticperturb-linear-flag-constant'
+        return (not bad), key, 'documented values of derived functionals on %s' % sk, {'bad': bad}
+    if kind == 'qp-linear-flag':
+        S = make_space(rng, 'rn')
+        c = dy(rng)
+        qp = F.FunctionalQuadraticPerturb(F.QuadraticForm(vector=S.elem(vec(rng, S))), linear_term=S.elem(vec(rng, S)),
+                                          constant=c)
+        x = S.elem(vec(rng, S))
+        s = dy(rng)
+        o, e = float((qp * s)(x)), float(qp(s * x))
+        return abs(o - e) <= 1e-9 * (1 + abs(e)), 'quadraticperturb-linear-flag-constant', \
+            '(FunctionalQuadraticPerturb(linear f, constant=c) * s)(x) == qp(s*x)', {'observed': o, 'expected': e, 'c': c}
+    if kind == 'numgrad':
+        sk, method = arg.split('/')
+        S = make_space(rng, sk)
+        f = rng.choice([F.L2NormSquared(S.sp), F.L2NormSquared(S.sp).translated(S.elem(vec(rng, S)))])
+        x, d = S.elem(vec(rng, S)), S.elem(vec(rng, S))
+        ng = F.NumericalGradient(f, method=method)
+        weighted = any(abs(w - 1.0) > 1e-12 for w in S.w)
+        key = 'numericalgradient-weighted-space' if weighted else 'numericalgradient-%s' % method
+        try:
+            o, e = float(ng(x).inner(d)), float(f.gradient(x).inner(d))
+        except IndexError as exc:
+            return False, 'numericalgradient-nd-raises', \
+                'NumericalGradient on a multi-dimensional tensor space %s' % sk, {'raised': 'IndexError: %s' % exc}
+        return abs(o - e) <= 1e-4 * (1 + abs(e)), key, \
+            'NumericalGradient(%s) on %s: inner(grad(x), d) vs the exact directional derivative' % (method, sk), \
+            {'observed': o, 'expected': e, 'weights': S.w}
+    if kind == 'huber-gamma0':
+        S = make_space(rng, 'rn')
+        f = F.Huber(S.sp, 0)
+        x, d = _away(rng, S, [0.0]), vec(rng, S)
+        try:
+            ok, det = _grad_check(f, S, x, d)
+        except Exception as e:
+            ok, det = False, {'raised': '%s: %s' % (type(e).__name__, str(e)[:200])}
+        return ok, 'huber-gamma0-gradient-raises', 'Huber(space, 0) (= L1 norm) gradient away from 0', det
+    if kind == 'scalingfunctional':
+        R = odl.RealNumbers()
+        s = dy(rng)
+        f = F.ScalingFunctional(R, s) if arg == 'scaling' else F.IdentityFunctional(R)
+        x, d = dy(rng), dy(rng)
+        try:
+            gi = float(f.gradient(x)) * d
+            num = (f(x + 1e-3 * d) - f(x - 1e-3 * d)) / 2e-3
+            dv = float(f.derivative(x)(d))
+            ok = abs(gi - num) <= 1e-8 * (1 + abs(num)) and abs(dv - gi) <= 1e-12 * (1 + abs(gi))
+            det = {'grad*d': gi, 'fd': num, 'derivative': dv}
+        except Exception as e:
+            ok, det = False, {'raised': '%s: %s' % (type(e).__name__, str(e)[:200])}
+        return ok, 'scalingfunctional-derivative-raises', '%s on RealNumbers: derivative(x)(d)' % type(f).__name__, det
+    if kind == 'rosenbrock':
+        from odl.solvers.functional.example_funcs import RosenbrockFunctional
+        S = make_space(rng, arg)
+        if S.n < 2:
+            S = SpaceInfo(arg, odl.rn(3) if arg == 'rn' else odl.rn(3, weighting=2.0))
+        f = RosenbrockFunctional(S.sp, scale=rng.choice([1.0, 10.0, 100.0]))
+        x, d = [t / 2 for t in vec(rng, S)], vec(rng, S)
+        ok, det = _grad_check(f, S, x, d)
+        weighted = any(abs(w - 1.0) > 1e-12 for w in S.w)
+        return ok, 'rosenbrock-weighted-gradient' if weighted else 'rosenbrock-gradient', \
+            'RosenbrockFunctional on %s: gradient vs directional derivative' % arg, det
+    if kind == 'moreau':
+        sk, which = arg.split('/')
+        S = make_space(rng, sk)
+        sigma = rng.choice([0.5, 1.0, 2.0])
+        base = {'l1': F.L1Norm(S.sp), 'l2sq': F.L2NormSquared(S.sp), 'l2': F.L2Norm(S.sp)}[which]
+        f = F.MoreauEnvelope(base, sigma)
+        x, d = S.elem(vec(rng, S)), S.elem(vec(rng, S))
+        gi = float(f.gradient(x).inner(d))
+        best = min(abs((_moreau_value(base, sigma, x + h * d) - _moreau_value(base, sigma, x - h * d)) / (2 * h) - gi)
+                   for h in (1e-3, 1e-4, 1e-5))
+        return best <= 1e-5 * (1 + abs(gi)), 'moreau-gradient-%s-%s' % (which, sk), \
+            'MoreauEnvelope(%s, %s) on %s: gradient vs numerical derivative of min_y f(y)+|x-y|^2/(2 sigma)' \
+            % (which, sigma, sk), {'inner(grad,d)': gi, 'fd_abs_err': best}
+    if kind == 'sepsum':
+        S1, S2 = make_space(rng, rng.choice(['rn', 'rn_cw', 'discr'])), make_space(rng, rng.choice(['rn', 'rn_aw', 'discr_big']))
+        f1 = gen_tree(rng, S1, 1, vs_term(measure_variants())).py
+        f2 = gen_tree(rng, S2, 1, vs_term(measure_variants())).py
+        f = F.SeparableSum(f1, f2)
+        x = f.domain.element([S1.elem(vec(rng, S1)), S2.elem(vec(rng, S2))])
+        d = f.domain.element([S1.elem(vec(rng, S1)), S2.elem(vec(rng, S2))])
+        gi = float(f.gradient(x).inner(d))
+        dv = float(f.derivative(x)(d))
+        ok, err = _fd_ok(f, x, d, gi)
+        return ok and abs(dv - gi) <= 1e-10 * (1 + abs(gi)), 'separablesum-gradient', \
+            'SeparableSum of two random depth-1 trees: gradient vs directional derivative', {'fd_rel_err': err}
+    if kind == 'simple':
+        S = make_space(rng, arg)
+        f = odl.solvers.functional.functional.simple_functional(
+            S.sp, fcall=lambda x: x.inner(x), grad=lambda x: 2 * x, grad_lip=2)
+        t = S.elem(vec(rng, S))
+        h = (f * dy(rng)).translated(t) + 3 * f
+        ok, det = _grad_check(h, S, vec(rng, S), vec(rng, S))
+        if ok:
+            ok, det = _lip_check(h, S, rng)
+        return ok, 'simple-functional-derived-%s' % arg, 'derived functionals of simple_functional: gradient and Lipschitz', det
+    raise ValueError(name)
+
+
+def _probe_names(rng, tier):
+    quick = (tier == 'quick')
+    names = []
+    for sk in SPACE_KINDS:
+        for idx in range(21):
+            names.append('class:%s/%d' % (sk, idx))
+    ntree = 120 if quick else 900
+    for i in range(ntree):
+        names.append('tree:%s/%d' % (rng.choice(SPACE_KINDS), rng.choice([1, 2, 2, 3] if quick else [2, 3, 3, 4])))
+    for sk in SPACE_KINDS:
+        for _ in range(1 if quick else 4):
+            names.append('doc:%s' % sk)
+    names += ['qp-linear-flag'] * 2
+    for sk in ('rn', 'rn1', 'rn_cw', 'rn_aw', 'discr', 'discr_big', 'discr2d'):
+        for m in ('forward', 'central', 'backward'):
+            names.append('numgrad:%s/%s' % (sk, m))
+    names += ['huber-gamma0', 'scalingfunctional:scaling', 'scalingfunctional:identity',
+              'rosenbrock:rn', 'rosenbrock:rn_cw', 'rosenbrock:rn_aw']
+    for sk in ('rn', 'rn_cw', 'rn_aw', 'discr', 'pspace', 'pspace_w'):
+        for which in ('l1', 'l2sq', 'l2'):
+            names.append('moreau:%s/%s' % (sk, which))
+    names += ['sepsum'] * (3 if quick else 12)
+    names += ['simple:%s' % sk for sk in ('rn', 'rn_cw', 'rn_aw', 'discr', 'pspace_w')]
+    return names
+
+
 def probes(rng, tier):
-    return []
+    out = []
+    for name in _probe_names(rng, tier):
+        seed = rng.getrandbits(40)
+        try:
+            ok, key, what, det = run_probe(name, seed)
+        except Exception as e:     # an unexpected exception of the implementation is a failed probe, not a crash
+            import traceback
+            ok, key, what, det = False, 'probe-raises-%s' % name.replace(':', '-').replace('/', '-'), \
+                'probe %s raised %s' % (name, type(e).__name__), {'traceback': traceback.format_exc()[-600:]}
+        replay = ("import sys\nsys.path.insert(0, %r)\nfrom harness import c09\n"
+                  "ok, key, what, detail = c09.run_probe(%r, %r)\nobserved = detail\n" % (C.VERIF, name, seed))
+        out.append(C.Probe(ok, key, what, replay, det))
+    return out
